@@ -5,6 +5,7 @@ import (
 	"strings"
 
 	"github.com/alecthomas/participle/v2/lexer"
+	"github.com/mikefarah/yq/v4/pkg/verifhook"
 )
 
 var participleYqRules = []*participleYqRule{
@@ -585,6 +586,7 @@ func (p *participleLexer) Tokenise(expression string) ([]*token, error) {
 	tokens := make([]*token, 0)
 
 	for {
+		verifhook.Yield("lex.token")
 		rawToken, e := myLexer.Next()
 		if e != nil {
 			return nil, e
